@@ -55,11 +55,13 @@ def graph_relations(graph_text: str) -> dict:
         rel = node["rel"]
         info = {"inputs": set(), "outputs": set(), "creator": None,
                 "nglobs": list(node["props"].get("nglob", [])),
-                "detached": raw_key.strip().startswith("(")}
-        for k in rel.get("source", []):
-            k = _strip(k)
+                "detached": raw_key.strip().startswith("("), "dyn_inputs": set()}
+        for k0 in rel.get("source", []):
+            k = _strip(k0)
             if k.startswith("file:"):
                 info["inputs"].add(k[5:])
+                if k0.strip().endswith("[dynamic]"):
+                    info["dyn_inputs"].add(k[5:])
         for k in rel.get("sink", []):
             k = _strip(k)
             if k.startswith("file:"):
@@ -117,6 +119,41 @@ def unjustified(executed: list, edited: list, pre: dict, post: dict) -> list:
             continue
         if any(i["creator"] in exe for i in infos if i["creator"] is not None):
             continue                                            # declared by an executed step
+        bad.append(label)
+    return bad
+
+
+def rerun_without_cause(executed: list, edited: list, pre: dict, post: dict, files_before: dict,
+                        files_after: dict) -> list:
+    """The rule behind the skip check: a step whose inputs did not change is skipped, not executed.
+    Executed labels that existed before with the same declared inputs and outputs, no amended input, all outputs
+    on disk, consume no edited path (nor
+    match one with a glob pattern) and none of whose input files has another content after the rebuild than
+    before it.  (Tracked variables do not change in the cone phase.)  Stricter than the clauses of the property:
+    a step behind an executed step that reproduced its output identically, or behind a skipped step, or a
+    recycled step of a rerun plan, has to be skipped."""
+    bad = []
+    for label in sorted(set(executed)):
+        if label not in pre or label not in post or pre[label]["detached"]:
+            continue                                            # new, dropped, or was not part of the build
+        a, b = pre[label], post[label]
+        if a["inputs"] != b["inputs"] or a["outputs"] != b["outputs"]:
+            continue                                            # declared differently
+        inputs = a["inputs"]
+        if any(p not in files_before for p in a["outputs"]):
+            continue                                            # never built (or reverted): nothing to skip to
+        if inputs & set(edited):
+            continue
+        if any(_glob_matches(pat, p) for i in (a, b) for pat in i["nglobs"] for p in edited):
+            continue
+        if any(files_before.get(p) != files_after.get(p) for p in inputs):
+            continue                                            # an input has other content now
+        # Steps with AMENDED inputs are left to the clauses of the property: while a producer runs, or while a
+        # rerun plan has not yet re-declared the sub-plan that owns the producer, such a step may be handed out
+        # for validation of its dynamic inputs, finds one unavailable, loses its hash (validate_dynamic_job ->
+        # _reset_step_to_pending) and is executed later; whether that happens depends on the schedule.
+        if a["dyn_inputs"] or b["dyn_inputs"]:
+            continue
         bad.append(label)
     return bad
 
@@ -538,6 +575,95 @@ def run_env_multi(item: dict) -> dict:
     return report
 
 
+# ---------------------------------------------------------------------------------------------
+# Edits that are absorbed by an identically rebuilt output; steps that track injected variables
+# ---------------------------------------------------------------------------------------------
+# Variables the director injects into (or overrides in) the environment of every step: their value in
+# Executor.base_env differs from os.environ.  (STEPUP_DIRECTOR_SOCKET changes with every start: not used.)
+INJECTED_ENV = ["SOURCE_DATE_EPOCH", "STEPUP_ROOT", "STEPUP_BUILD_LOG_LEVEL"]
+
+
+def gen_absorbed(rng: random.Random) -> tuple[e3.Project, list, list, str]:
+    """Project, cone edits, edited paths, variant.
+    chain:  sources x<i>.txt; an absorber ta<i> reads x<i>.txt and writes a CONSTANT a<i>.out; behind it a chain
+            tb<i>_0 -> tb<i>_1 -> ... of steps that track 0-2 variables out of the injected ones and VA; next to it
+            sometimes td (x0.txt -> d.out, content depends on the input) with a consumer te.  The edit changes the
+            sources: the absorbers run and reproduce their outputs, everything behind them is checked and skipped.
+    nested: the same steps are declared by a sub-plan ./p2.py of plan.py; the edit appends a byte to plan.py: the
+            plan is rerun and declares everything as before; ./p2.py and its steps are recycled, checked, skipped."""
+    variant = rng.choice(["chain", "chain", "nested"])
+    nsrc = rng.randint(1, 2)
+    sources = {f"x{i}.txt": f"source {i} v0\n" for i in range(nsrc)}
+    pool = INJECTED_ENV + ["VA"]
+    decl = [{"op": "static", "paths": sorted(sources)}]
+    commands = {}
+
+    def tracked():
+        k = rng.choice([0, 1, 1, 2])
+        env = sorted(rng.sample(pool, k))
+        if rng.random() < 0.7 and not set(env) & set(INJECTED_ENV):
+            env = sorted(set(env) | {rng.choice(INJECTED_ENV)})
+        return env
+
+    def step(label, inp, out, env):
+        a = {"op": "step", "label": label, "inp": inp, "out": out}
+        if env:
+            a["env"] = env
+        decl.append(a)
+        commands[label] = [{"op": "getenv", "name": n} for n in env] + [{"op": "auto"}]
+
+    for i in range(nsrc):
+        decl.append({"op": "step", "label": f"ta{i}", "inp": [f"x{i}.txt"], "out": [f"a{i}.out"]})
+        commands[f"ta{i}"] = [{"op": "read", "paths": [f"x{i}.txt"], "required": True},
+                              {"op": "write", "path": f"a{i}.out", "content": f"constant output {i}\n"}]
+        prev = f"a{i}.out"
+        for j in range(rng.randint(1, 3)):
+            out = f"b{i}_{j}.out"
+            step(f"tb{i}_{j}", [prev], [out], tracked())
+            prev = out
+    with_direct = rng.random() < 0.5
+    if with_direct:
+        step("td", ["x0.txt"], ["d.out"], tracked())
+        step("te", ["d.out"], ["e.out"], tracked())
+    scripts = {}
+    if variant == "nested":
+        scripts["p2.py"] = decl
+        scripts["plan.py"] = [{"op": "static", "paths": ["p2.py"]}, {"op": "plan", "label": "./p2.py"}]
+        edits, edited = [{"op": "rawappend", "path": "plan.py"}], ["plan.py"]
+    else:
+        scripts["plan.py"] = decl
+        edits, edited = [], []
+        for p in sorted(sources):
+            if not edits or rng.random() < 0.6:
+                edits.append({"op": "write", "path": p, "content": sources[p] + "edited\n"})
+                edited.append(p)
+    env = {"VA": "va0"}
+    if rng.random() < 0.25:
+        env["SOURCE_DATE_EPOCH"] = "1700000000"        # then the director does not inject its own value
+    project = e3.Project(dict(sources), {"scripts": scripts, "commands": commands}, env)
+    return project, edits, edited, variant
+
+
+def run_absorbed(item: dict) -> dict:
+    """item: {"seed", "flavour"}.  First build (rc 0), a rebuild with nothing changed, the edit, the rebuild:
+    the generic clauses of the property and the skip rule (rerun_without_cause) on the real director."""
+    seed, flavour = item["seed"], item["flavour"]
+    rng = random.Random(f"c04-absorbed-{seed}-{flavour}")
+    if "project" in item:
+        project = e3.Project.from_json(item["project"])
+        edits, edited = item["cone_edits"]
+        variant = item.get("variant", "given")
+    else:
+        project, edits, edited, variant = gen_absorbed(rng)
+    sub = dict(item, project=project.to_json(), history=[], cone_edits=[edits, edited], cone_schedule=None,
+               skip_env=True, max_phases=1)
+    sub.pop("kind", None)
+    rep = run_case(sub)
+    rep["kind"], rep["variant"] = "absorbed", variant
+    rep["stats"][f"absorbed:{variant}"] = 1
+    return rep
+
+
 def build_kw(item: dict) -> dict:
     return {"resources": "tok:1", "njob": item.get("njob", 1), "timeout": item.get("timeout", 60)}
 
@@ -547,6 +673,8 @@ def run_case(item: dict) -> dict:
     "history", "cone_edits", "skip_noop", "cone_schedule"}.  Returns a JSON-able report."""
     if item.get("kind") == "env_multi":
         return run_env_multi(item)
+    if item.get("kind") == "absorbed":
+        return run_absorbed(item)
     seed = item["seed"]
     flavour = item["flavour"]
     rng = random.Random(f"c04-e3-{seed}-{flavour}")
@@ -621,6 +749,14 @@ def _cone_check(item, rng, proj, ref, rebuild, flavour, report, count, fail, roo
         fail(f"oracle:cone:{flavour}:executed-outside-cone",
              f"edited {edited}; executed {executed}; not justified by any clause: {bad}",
              {"edited": edited, "executed": executed, "unjustified": bad})
+    if new.returncode == OK_RC and not new.error:
+        causeless = rerun_without_cause(executed, edited, pre, post, ref.files, new.files)
+        count("cone:skip_rule_checked", len(set(executed)))
+        if causeless:
+            fail(f"oracle:cone:{flavour}:executed-with-unchanged-inputs",
+                 f"edited {edited}; executed {executed}; steps declared as before whose inputs have the same content "
+                 f"as before the rebuild and that consume no edited path: {causeless}",
+                 {"edited": edited, "executed": executed, "causeless": causeless})
 
 
 def _env_aba_check(item, rng, proj, ref, build, report, count, fail):
